@@ -460,8 +460,11 @@ def _getput_line_comment(
     # put operation
 
     if comment is not None:
-        if '\n' in comment:
+        if '\n' in comment or '\r' in comment:  # the tokenizer ends a line at '\r' as well
             raise ValueError('line comment cannot have newlines in it')
+
+        if '\0' in comment:
+            raise ValueError('line comment cannot have null characters in it')
 
         if full:
             if not comment.lstrip().startswith('#'):
